@@ -90,6 +90,7 @@ func newWorld() *world {
 	p := config.GetDefaultParams()
 	p.DPoSConfiguration.CRCArbiters = []string{w.crcNode[0].Hex(), w.crcNode[1].Hex()}
 	p.DPoSConfiguration.NormalArbitratorsCount = cfgNormal
+	p.PublicDPOSHeight = 100 // clearingDPOSReward does nothing below it
 	p.CRConfiguration.CRCommitteeStartHeight = hV1
 	p.CRConfiguration.CRClaimDPOSNodeStartHeight = hV2
 	p.CRConfiguration.ChangeCommitteeNewCRHeight = hV3
@@ -409,6 +410,19 @@ func main() {
 	hx.QuietLogs(scr)
 
 	if r.Replay != "" {
+		var probe struct {
+			Kind string `json:"kind"`
+		}
+		r.LoadReplay(&probe)
+		if probe.Kind == "clearing" {
+			var c clearingCase
+			sig := r.LoadReplay(&c)
+			fmt.Println("replay", sig)
+			var sk dposkit.Sink
+			newWorld().evalClearing(&sk, &c)
+			sk.MergeInto(r)
+			finish(evid.Coverage{})
+		}
 		var c caseT
 		sig := r.LoadReplay(&c)
 		fmt.Println("replay", sig)
@@ -492,6 +506,9 @@ func main() {
 	for i := range sinks {
 		sinks[i].MergeInto(r)
 	}
+	var skB dposkit.Sink
+	clEvals, clOK := clearingFamily(&skB, sh)
+	skB.MergeInto(r)
 	samples := []interface{}{}
 	for _, c := range []caseT{
 		{Era: 0, CRC: []string{"key"}, DPoS: 2, Cand: 1, Votes: []int64{3, 1, 100000000}, Reward: 100000001},
@@ -508,16 +525,18 @@ func main() {
 		"float64 -> int64 conversion of NaN/Inf is the platform's (amd64: MinInt64)",
 		"payouts + change <= reward (what the coinbase spends in total) is counted but NOT part of the verdict: V2/V3 add destroy-address top-ups for unfilled arbiter seats that are not included in the amount attributed as paid")
 	finish(evid.Coverage{
-		"evaluations":         ct.evals,
-		"distinct_nontrivial": ct.multi,
-		"rule":                fmt.Sprintf("every shape {era V0..V3 (by height) x [POW flag in V3] x current CRC arbiters: all sequences of length 0..2 over {elected+DPoS key, elected without DPoS key, impeached} x DPoS arbiters 0..3 x candidates 0..2 x [candidate 0 shares the owner key of DPoS arbiter 0] x [key-less CRC arbiters mapped to a producer with its own votes]} (%d shapes; configured seats: %d CRC + {%d, 1} normal — with 1 normal seat the sitting arbiters equal the configured seats or exceed them by 1 and 2) x every vote vector over %v (%v quick / %v thorough for shapes with elected CRC arbiters and for the 1-normal-seat shapes; one entry per distinct participant) x every reward in %v. non-trivial = successful distributions with at least two positive payouts (cases are distinct by construction)", len(sh), cfgCRC, cfgNormal, voteAlphabet, voteAlphabetSmall, voteAlphabetMid, rewardAlphabet),
-		"exhaustive":          true,
-		"shapes":              len(sh),
-		"succeeded":           ct.ok,
-		"returned_error":      ct.errs,
-		"zero_total_votes":    ct.zeroTotal,
-		"whole_reward_to_one": ct.destroyAll,
-		"two_or_more_payouts": ct.multi,
+		"evaluations":          ct.evals + clEvals,
+		"clearing_evaluations": clEvals,
+		"clearing_succeeded":   clOK,
+		"distinct_nontrivial":  ct.multi,
+		"rule":                 fmt.Sprintf("every shape {era V0..V3 (by height) x [POW flag in V3] x current CRC arbiters: all sequences of length 0..2 over {elected+DPoS key, elected without DPoS key, impeached} x DPoS arbiters 0..3 x candidates 0..2 x [candidate 0 shares the owner key of DPoS arbiter 0] x [key-less CRC arbiters mapped to a producer with its own votes]} (%d shapes; configured seats: %d CRC + {%d, 1} normal — with 1 normal seat the sitting arbiters equal the configured seats or exceed them by 1 and 2) x every vote vector over %v (%v quick / %v thorough for shapes with elected CRC arbiters and for the 1-normal-seat shapes; one entry per distinct participant) x every reward in %v. non-trivial = successful distributions with at least two positive payouts (cases are distinct by construction). Family B (round end): clearingDPOSReward for smoothClearing in {true,false} x every 3-normal-seat shape (all participants 3 votes) x accumulated in {0,1,7,10^8+1,10^11} x block fees {0,1 ELA}: payouts to non-destroy addresses + change + carried-forward reward <= accumulated + block reward, nothing negative", len(sh), cfgCRC, cfgNormal, voteAlphabet, voteAlphabetSmall, voteAlphabetMid, rewardAlphabet),
+		"exhaustive":           true,
+		"shapes":               len(sh),
+		"succeeded":            ct.ok,
+		"returned_error":       ct.errs,
+		"zero_total_votes":     ct.zeroTotal,
+		"whole_reward_to_one":  ct.destroyAll,
+		"two_or_more_payouts":  ct.multi,
 		"informational_payouts_plus_change_exceed_reward": ct.topUp,
 		"informational_beyond_supply_evaluations":         ct.beyond,
 		"informational_beyond_supply_oracle_failures":     ct.beyondBad,
